@@ -509,6 +509,9 @@ func httpHeaders(h HTTPCase, now time.Time) http.Header {
 	case "skewed":
 		date = now.Add(-100 * time.Second)
 		out.Set("Date", date.UTC().Format(http.TimeFormat))
+	case "ahead":
+		date = now.Add(100 * time.Second)
+		out.Set("Date", date.UTC().Format(http.TimeFormat))
 	case "absent":
 		out["Date"] = nil // suppresses the header net/http would add
 	default:
